@@ -288,7 +288,7 @@ def run_check(spec, tier, seed, budget_scale=1.0, out=sys.stdout):
 
     # ---- 7b. monitor the libm hypotheses used by theorems on every call the implementation made ----
     libm_mon = {'calls': 0, 'cos_zero_one': 0, 'sin_zero_zero': 0, 'cos_range': 0, 'tanh_range': 0,
-                'cos_acc_u=2^-52_on_[-8,8]': 0, 'sin_acc_u=2^-52_on_[-8,8]': 0, 'atan2_range_[-PI,PI]': 0, 'violations': []}
+                'cos_acc_u=2^-52_on_[-8,8]': 0, 'sin_acc_u=2^-52_on_[-8,8]': 0, 'atan2_range_[-PI,PI]': 0, 'atan2_acc_u2=2^-51': 0, 'violations': []}
     ONE = fb.bits(1.0)
     import mpmath as _mp
     U52 = _mp.mpf(2) ** -52
@@ -313,6 +313,10 @@ def run_check(spec, tier, seed, budget_scale=1.0, out=sys.stdout):
                     libm_mon['atan2_range_[-PI,PI]'] += 1
                     if not (fr == fr and abs(fr) <= PI_F):
                         libm_mon['violations'].append(['atan2_range', a, b_, r_])
+                    # atan2_acc with u2 = 2^-51: within u2 of the angle of (x, y) (any angle when x = y = 0)
+                    libm_mon['atan2_acc_u2=2^-51'] += 1
+                    if (fa != 0.0 or fb2 != 0.0) and not (fr == fr and abs(_mp.mpf(fr) - _mp.atan2(_mp.mpf(fa), _mp.mpf(fb2))) <= 2 * U52):
+                        libm_mon['violations'].append(['atan2_acc', a, b_, r_])
             if f == 0:
                 libm_mon['cos_range'] += 1
                 if fa == fa and abs(fa) != float('inf') and not (fr == fr and abs(fr) <= 1.0):
